@@ -1,4 +1,6 @@
 #include "oracle.hpp"
+#include <tuple>
+#include <algorithm>
 #include "model.hpp"
 #include <algorithm>
 
@@ -78,7 +80,7 @@ static void attribute(const Desc& d, const Facts& f, const Plan& plan, const Wor
         if (after_copy) add(P, "C15");
         if (after_load) add(P, "C16");
     };
-    if (real.aborted && (!O || !E)) {
+    if (real.aborted && (!O || !E || (O->kind == K_ESC && O->val == 1))) {
         o.level = "X"; o.detail = "library assertion fired: " + real.abort_msg;
         add(P, "C03"); add(P, "C02"); add(P, "C01"); add_context();
         return;
@@ -409,9 +411,26 @@ static void collect_stats(const Desc& d, const Plan& plan, const World& real, Ru
 }
 
 // the description with the state ids as the back-end of this variant numbers them (one spec per process)
-static const Desc& view_of(const Desc& d, int dialect) {
+const Desc& view_of(const Desc& d, int dialect) {
     static Desc back_view = dialect_view(d, 0);
     return dialect == 0 ? back_view : d;
+}
+
+// finding KF-3 as an outcome: where the two numberings first show in the trace
+static void ids_outcome(const Desc& d, const std::vector<Rec>& t, Outcome& o, bool diff) {
+    o.verdict = V_DIVERGED;
+    o.level = "IDS";
+    o.props = diff ? std::vector<std::string>{"C13", "C03"} : std::vector<std::string>{"C03"};
+    o.dv.diverged = true;
+    o.dv.index = 0;
+    std::string which;
+    for (auto& m : d.machines)
+        for (size_t i = 0; i < m.states.size(); ++i)
+            if (m.states[i] != m.states_back[i] && which.empty())
+                which = "machine " + m.name + ": state " + d.states[m.states_back[i]].name + " has id " + std::to_string(i) + " in back / back11 and " +
+                        std::to_string(d.states[m.states_back[i]].lib_id) + " in backmp11";
+    o.detail = "state ids of implicitly created states: back / back11 number them before the Next-column-only states, backmp11 after (" + which + ")";
+    for (size_t i = 0; i < t.size(); ++i) if (t[i].kind == K_SNAP) { o.dv.index = i; break; }
 }
 
 Outcome evaluate(const Desc& d0, const Variant& v, const Profile& pf, const Plan& plan, RunStats* st) {
@@ -439,6 +458,10 @@ Outcome evaluate(const Desc& d0, const Variant& v, const Profile& pf, const Plan
         if (!inv_ok && inv.dv.index < o.dv.index) o = inv;
     } else if (!inv_ok) {
         o = inv;
+    } else if (v.dialect == 0 && ids_differ(d0)) {
+        // finding KF-3: everything else agreed with the model that numbers the states as back does (internals.adoc); the
+        // numbering itself is not the one C03 spells out (sources, targets, then implicitly created states)
+        ids_outcome(d0, real.env.trace, o, false);
     }
     if (o.verdict != V_OK) {
         size_t i = o.dv.index;
@@ -447,7 +470,7 @@ Outcome evaluate(const Desc& d0, const Variant& v, const Profile& pf, const Plan
             if (k < real.env.trace.size()) o.observed.push_back(real.env.trace[k]);
             if (k < model.env.trace.size()) o.expected.push_back(model.env.trace[k]);
         }
-        if (st) { if (o.verdict == V_DIVERGED) st->diverged++; else st->invariant_violations++; }
+        if (st) { if (o.level == "IDS") st->ids_known++; else if (o.verdict == V_DIVERGED) st->diverged++; else st->invariant_violations++; }
     } else if (st && st->samples.size() < 3 && plan.ops.size() <= 8 && real.env.trace.size() > 12) {
         JV s = JV::obj();
         s.set("plan", plan_to_json(plan));
@@ -582,6 +605,33 @@ static std::vector<Rec> normalise(const Desc& d, const std::vector<Rec>& t, cons
     return out;
 }
 
+// finding KF-4: the divergence at a[i] / b[i] is the forwarded event of an exit point that the history policy restored in
+// the same op (entered together with its sub-machine, not as the target of a row) being processed on one side only
+static std::string restored_exit_point(const Desc& d, const std::vector<Rec>& a, const std::vector<Rec>& b, size_t i) {
+    for (size_t k = i; k-- > 0 && k < a.size(); ) {
+        if (a[k].kind == K_OP) break;
+        if (a[k].kind != K_N || a[k].site < 0 || a[k].site >= (int)d.states.size()) continue;
+        const DState& x = d.states[a[k].site];
+        if (x.kind != SK_EXIT_PT) continue;
+        bool with_machine = false;
+        for (size_t q = k; q-- > 0; ) {
+            if (a[q].kind == K_POST || a[q].kind == K_THROW) continue;
+            if (a[q].kind != K_N) break;
+            if (a[q].site == d.machines[x.machine].parent_state) { with_machine = true; break; }
+        }
+        if (!with_machine) continue;
+        // the forwarded event carries the occurrence id of the event that entered the sub-machine
+        bool ea = i < a.size() && a[i].kind <= K_EC && a[i].evtype == x.exit_event && a[i].occ == a[k].occ;
+        bool eb = i < b.size() && b[i].kind <= K_EC && b[i].evtype == x.exit_event && b[i].occ == a[k].occ;
+        if (ea != eb) return x.name;
+        // ... or is refused by an assertion of back (the entering event is not convertible to the exit point's event)
+        if ((i < a.size() && a[i].kind == K_ESC && a[i].val == 1) || (i < b.size() && b[i].kind == K_ESC && b[i].val == 1)) return x.name;
+        // ... or is still pending on one side when a bounded drain ends the op
+        if (i < a.size() && i < b.size() && a[i].kind == K_Q && b[i].kind == K_Q && a[i].site == b[i].site && a[i].val != b[i].val) return x.name;
+    }
+    return "";
+}
+
 Outcome evaluate_diff(const Desc& d, const std::vector<const Variant*>& vs, const Profile& pf, const Plan& plan,
                       const std::string& mode, RunStats* st) {
     Outcome o;
@@ -607,6 +657,22 @@ Outcome evaluate_diff(const Desc& d, const std::vector<const Variant*>& vs, cons
         size_t n = std::min(a.size(), b.size()), i = 0;
         for (; i < n; ++i) if (a[i] != b[i]) break;
         if (i == n && a.size() == b.size()) continue;
+        std::string kf4_context = restored_exit_point(d, a, b, i);
+        // finding KF-5: the same completion steps on both sides, in another order (several regions armed by one event)
+        bool kf5 = false;
+        if (i < a.size() && i < b.size() && a[i].kind <= K_EC && b[i].kind <= K_EC && a[i].occ == OCC_NONE && b[i].occ == OCC_NONE) {
+            auto run_of = [&](const std::vector<Rec>& t) {
+                std::vector<std::tuple<int, int, int, int>> r;
+                for (size_t q = i; q < t.size(); ++q) {
+                    if (t[q].kind == K_POST || t[q].kind == K_THROW) continue;      // submissions made by those steps
+                    if (!(t[q].kind <= K_EC && t[q].occ == OCC_NONE)) break;
+                    r.emplace_back(t[q].kind, t[q].site, t[q].mach, t[q].val);
+                }
+                std::sort(r.begin(), r.end());
+                return r;
+            };
+            kf5 = run_of(a) == run_of(b);
+        }
         o.verdict = V_DIVERGED;
         o.dv.diverged = true;
         o.dv.index = i;
@@ -616,6 +682,8 @@ Outcome evaluate_diff(const Desc& d, const std::vector<const Variant*>& vs, cons
         o.props = {mode == "backend" ? "C13" : mode == "policy" ? "C19" : "C14"};
         std::string ka = i < a.size() ? kind_name(a[i].kind) : "end", kb = i < b.size() ? kind_name(b[i].kind) : "end";
         o.detail = vs[0]->name + " vs " + vs[k]->name + ": normalised traces differ at a " + ka + " / " + kb + " record";
+        if (kf5) o.detail += " (the same completion steps of several regions in another order)";
+        if (!kf4_context.empty()) o.detail += " (forwarded event of exit point " + kf4_context + " that the history policy restored)";
         size_t lo = i > 12 ? i - 12 : 0;
         for (size_t q = lo; q < i + 4; ++q) {
             if (q < a.size()) o.expected.push_back(a[q]);
@@ -623,6 +691,14 @@ Outcome evaluate_diff(const Desc& d, const std::vector<const Variant*>& vs, cons
         }
         if (st) st->diverged++;
         break;
+    }
+    if (o.verdict == V_OK && mode == "backend" && ids_differ(d)) {
+        bool d0 = false, d1 = false;
+        for (auto* v : vs) (v->dialect == 0 ? d0 : d1) = true;
+        if (d0 && d1) {
+            ids_outcome(d, traces[0], o, true);
+            if (st) st->ids_known++;
+        }
     }
     return o;
 }
@@ -691,7 +767,7 @@ JV stats_to_json(const RunStats& st) {
     j.set("throws_configured", st.throws_configured); j.set("throws_fired", st.throws_fired);
     j.set("copies", st.copies); j.set("assigns", st.assigns); j.set("moves", st.moves); j.set("saveloads", st.saveloads);
     j.set("stopstarts", st.stopstarts); j.set("clears", st.clears); j.set("destroys", st.destroys);
-    j.set("diverged", st.diverged); j.set("invariant_violations", st.invariant_violations);
+    j.set("diverged", st.diverged); j.set("invariant_violations", st.invariant_violations); j.set("ids_known", st.ids_known);
     j.set("multi_candidate_dispatches", st.multi_candidate_dispatches); j.set("nested_dispatches", st.nested_dispatches);
     j.set("deferred_pending_observed", st.deferred_seen); j.set("completion_dispatches", st.completion_seen);
     j.set("exceptions_caught", st.exceptions_caught); j.set("no_transitions", st.no_transitions);
